@@ -118,6 +118,26 @@ func (w *World) client(n *Node) *grpc.ClientConn {
 
 func (w *World) kv(n *Node) regattapb.KVClient { return regattapb.NewKVClient(w.client(n)) }
 
+func clientAddr(id int) string { return fmt.Sprintf("10.9.8.%d:1", id+1) }
+
+// kvOf returns the KV stub of simulated client id talking to node n over its own connection.
+func (w *World) kvOf(id int, n *Node) regattapb.KVClient {
+	name := fmt.Sprintf("c%d@%s", id, n.name)
+	c := w.clients[name]
+	if c == nil {
+		from := clientAddr(id)
+		var err error
+		c, err = grpc.NewClient("passthrough:///"+n.apiAddr, grpc.WithTransportCredentials(insecure.NewCredentials()),
+			grpc.WithContextDialer(func(ctx context.Context, target string) (net.Conn, error) { return w.net.Dial(ctx, from, target) }),
+			grpc.WithDefaultCallOptions(grpc.MaxCallRecvMsgSize(16*1024*1024)))
+		if err != nil {
+			panic(err)
+		}
+		w.clients[name] = c
+	}
+	return regattapb.NewKVClient(c)
+}
+
 func ctxT(d time.Duration) (context.Context, context.CancelFunc) {
 	return context.WithTimeout(context.Background(), d)
 }
